@@ -14,6 +14,7 @@ EXPLANATION = (
     "the single-element branch; (SIB-interp) interpolator keyword agreement; (F4b) row width of each map vs. every "
     "unpacking/indexing site in the package; (F3) clef and mode code tables are mutually inverse / partition the same "
     "literal sets and the clef default is encodable."
+    ' (NONE-test) the unnumbered-measure fallback of measure_number_map tests against None, not truthiness.'
 )
 NOT_DECIDED = [
     "values returned at arbitrary t (run-time arrays)", "pickup correction arithmetic of the first measure",
